@@ -52,16 +52,19 @@ def handle : Handler := fun op args =>
   | "c18.canon" => withArgs (do let g ← pGen; let n ← pNat; pure (g, n)) args fun (g, n) =>
       "ok " ++ showRats (Lp.MT.canonicals n g.g []).1
   | "c18.uniform" => withArgs (do let g ← pGen; let a ← pRat; let b ← pRat; pure (g, a, b)) args fun (g, a, b) =>
-      let r := sampleUniform CG.u01 g a b
-      "ok " ++ showRat r.1 ++ " " ++ toString r.2.n
-  | "c18.gauss" => withArgs (do let g ← pGen; let m ← pRat; let s ← pRat; pure (g, m, s)) args fun (g, _, _) =>
-      -- the quantile is a parameter: the model predicts the uniform fed to Quantile_Gauss and the draw count
-      let r := sampleUniform CG.u01 g 0 1
-      "ok " ++ showRat r.1 ++ " " ++ toString r.2.n
+      match sampleUniformG CG.u01 g a b with
+      | .ok r => "ok " ++ showRat r.1 ++ " " ++ toString r.2.n
+      | .error _ => "err"
+  | "c18.gauss" => withArgs (do let g ← pGen; let m ← pRat; let s ← pRat; pure (g, m, s)) args fun (g, m, s) =>
+      -- the quantile is a parameter: the model predicts the uniform fed to Quantile_Gauss (`gq := fun p _ _ => p`) and the draw count
+      match sampleGaussG CG.u01 (fun p _ _ => p) g m s with
+      | .ok r => "ok " ++ showRat r.1 ++ " " ++ toString r.2.n
+      | .error _ => "err"
   | "c18.itrans" => withArgs (do let g ← pGen; let id ← pNat; let a ← pRat; let b ← pRat; pure (g, id, a, b)) args fun (g, _, _, _) =>
       let r := sampleUniform CG.u01 g 0 1
       "ok " ++ showRat r.1 ++ " " ++ toString r.2.n
   | "c18.poisson" => withArgs (do let g ← pGen; let lam ← pRat; pure (g, lam)) args fun (g, lam) =>
+      if lam < 0 then "err" else      -- samplePoissonG: the guard precedes the first draw
       let rf := (lam / 500).floor.toNat + 2
       let run (e : Rat → Rat) := samplePoisson CG.u01 e (rndK 1200) 500 rf 200000 g lam
       let d : Rat := 1 / (2 : Rat) ^ (30 : Nat)
@@ -73,22 +76,25 @@ def handle : Handler := fun op args =>
         "ok " ++ toString k ++ " " ++ toString g'.n ++ " " ++ b2s knife
       | none => "undef"
   | "c18.poissonv" => withArgs (do let g ← pGen; let ls ← pRats; pure (g, ls)) args fun (g, ls) =>
-      match samplePoissonList CG.u01 expApprox (rndK 1200) 500 12 200000 g ls with
-      | some (ks, g') => "ok " ++ toString ks.length ++ " " ++ showNats ks ++ " " ++ toString g'.n
-      | none => "undef"
+      match samplePoissonListG CG.u01 expApprox (rndK 1200) 500 12 200000 g ls with
+      | .error _ => "err"
+      | .ok (some (ks, g')) => "ok " ++ toString ks.length ++ " " ++ showNats ks ++ " " ++ toString g'.n
+      | .ok none => "undef"
   | "c18.reject1" => withArgs (do let g ← pGen; let id ← pNat; let a ← pRat; let b ← pRat; let y ← pRat; pure (g, id, a, b, y)) args
       fun (g, id, a, b, y) =>
-      match rejection CG.u01 (pdf1 id) a b y g with
-      | .ok (x, c, g') => "ok " ++ showRat x ++ " " ++ toString c ++ " " ++ toString g'.n
-      | .error .fuel => "undef"
+      match rejectionG CG.u01 (pdf1 id) a b y g with
       | .error _ => "err"
+      | .ok (.ok (x, c, g')) => "ok " ++ showRat x ++ " " ++ toString c ++ " " ++ toString g'.n
+      | .ok (.error .fuel) => "undef"
+      | .ok (.error _) => "err"
   | "c18.reject2" => withArgs (do let g ← pGen; let id ← pNat; let a ← pRat; let b ← pRat; let c ← pRat; let d ← pRat; let z ← pRat
                                   pure (g, id, a, b, c, d, z)) args
       fun (g, id, a, b, c, d, z) =>
-      match rejection2 CG.u01 (pdf2 id) a b c d z g with
-      | .ok (x, n, g') => "ok " ++ showRat x.1 ++ " " ++ showRat x.2 ++ " " ++ toString n ++ " " ++ toString g'.n
-      | .error .fuel => "undef"
+      match rejection2G CG.u01 (pdf2 id) a b c d z g with
       | .error _ => "err"
+      | .ok (.ok (x, n, g')) => "ok " ++ showRat x.1 ++ " " ++ showRat x.2 ++ " " ++ toString n ++ " " ++ toString g'.n
+      | .ok (.error .fuel) => "undef"
+      | .ok (.error _) => "err"
   | "c18.mcount" =>
       -- seed skip dim bounded sample thin burn : bookkeeping only (count of pushes, uniforms consumed)
       withArgs (do let _ ← pNat; let _ ← pNat; let dim ← pNat; let bd ← pNat; let s ← pNat; let t ← pNat; let b ← pNat; pure (dim, bd, s, t, b)) args
@@ -100,13 +106,17 @@ def handle : Handler := fun op args =>
       "ok " ++ toString r.1.length ++ " " ++ toString r.2
   | "c18.metro1" =>
       -- seed skip sample thin burn sigma pdfid  ndom dom…  hasx0 x0  ncand cand…
-      withArgs (do let sd ← pNat; let sk ← pNat; let s ← pNat; let t ← pNat; let b ← pNat; let _ ← pRat; let id ← pNat
-                   let dom ← pRats; let x0 ← pOptRat; let cs ← pRats; pure (sd, sk, s, t, b, id, dom, x0, cs)) args
-      fun (sd, sk, s, t, b, id, dom, x0, cs) =>
+      withArgs (do let sd ← pNat; let sk ← pNat; let s ← pNat; let t ← pNat; let b ← pNat; let sg ← pRat; let id ← pNat
+                   let dom ← pRats; let x0 ← pOptRat; let cs ← pRats; pure (sd, sk, s, t, b, sg, id, dom, x0, cs)) args
+      fun (sd, sk, s, t, b, sg, id, dom, x0, cs) =>
       if dom.length ≠ 0 ∧ dom.length ≠ 2 then "err" else
       if t = 0 then "undef" else
       let r0 : Replay := { g := Lp.MT.mk sd sk, cands := cs }
       let d : Option (Rat × Rat) := match dom with | [lo, hi] => some (lo, hi) | _ => none
+      -- parameter guards inherited from Sample_Uniform / Sample_Gauss (metropolis1G; the chain itself is replayed below)
+      if (match metropolis1G (G := Nat) (fun n => (0, n)) (fun _ _ _ => 0) (fun _ => 1) sg 0 t 0 d 0 with | .error _ => true | .ok _ => false)
+         || (match metropolis1G (G := Nat) (fun n => (0, n)) (fun _ _ _ => 0) (fun _ => 1) sg (min s 1) t (min b 1) d 0 with | .error _ => true | .ok _ => false)
+      then "err" else
       -- start: bounded → uniform on the domain (predicted exactly); unbounded → Gaussian (recorded)
       let st : Rat × Replay := match d with
         | some (lo, hi) => sampleUniform Replay.u01 r0 lo hi
@@ -117,13 +127,15 @@ def handle : Handler := fun op args =>
       "ok " ++ toString r.1.length ++ " " ++ showRats r.1 ++ " u " ++ toString r.2.uniforms ++ " x0 " ++ showRat st.1
         ++ " knife " ++ b2s r.2.knife ++ " left " ++ toString r.2.cands.length
   | "c18.metro2" =>
-      withArgs (do let sd ← pNat; let sk ← pNat; let s ← pNat; let t ← pNat; let b ← pNat; let _ ← pRat; let _ ← pRat; let id ← pNat
-                   let dom ← pRats; let x0 ← pOptRat; let y0 ← pOptRat; let cs ← pRats; pure (sd, sk, s, t, b, id, dom, x0, y0, cs)) args
-      fun (sd, sk, s, t, b, id, dom, x0, y0, cs) =>
+      withArgs (do let sd ← pNat; let sk ← pNat; let s ← pNat; let t ← pNat; let b ← pNat; let s1 ← pRat; let s2 ← pRat; let id ← pNat
+                   let dom ← pRats; let x0 ← pOptRat; let y0 ← pOptRat; let cs ← pRats; pure (sd, sk, s, t, b, s1, s2, id, dom, x0, y0, cs)) args
+      fun (sd, sk, s, t, b, s1, s2, id, dom, x0, y0, cs) =>
       if dom.length ≠ 0 ∧ dom.length ≠ 4 then "err" else
       if t = 0 then "undef" else
       let r0 : Replay := { g := Lp.MT.mk sd sk, cands := cs }
       let d : Option Dom2 := match dom with | [a, b, c, e] => some ⟨a, b, c, e⟩ | _ => none
+      if (match metropolis2G (G := Nat) (fun n => (0, n)) (fun _ _ _ => 0) (fun _ _ => 1) s1 s2 (min s 1) t (min b 1) d 0 with | .error _ => true | .ok _ => false)
+      then "err" else
       let st : (Rat × Rat) × Replay := match d with
         | some dd =>
           let a := sampleUniform Replay.u01 r0 dd.x0 dd.x1
